@@ -62,11 +62,24 @@ def oracle_chunks(req, out):
     if b"".join(cs) != b: return "chunks do not concatenate to the text"
     return None
 
+def gen_cpus(tier, rng):
+    out = []
+    for b in texts(tier, rng, 60 if tier == "quick" else 3000):
+        if len(b) < 4000:
+            out.append("cpus-all " + (b.hex() if b else "-"))
+    return out
+
+def oracle_cpus(req, out):
+    return None if out.startswith("same ") else "a command behaves differently depending on the number of CPUs: " + out[:120]
+
 def suites():
     return [
         Suite("equivalence", gen_par, oracle=oracle_par,
               rule="conforming, faulted and mutated documents x worker counts (1..len+2: all for short texts in thorough) x forced arrival orders (hook) ; non-trivial = text with >= 1 block",
               nontrivial=lambda r, o: " R " in o or o.startswith("same errors")),
+        Suite("commands-cpus", gen_cpus, oracle=oracle_cpus, model=False,
+              rule="every read-only command (and `track`) run through the CLI with 1, 2, 3, 7, 64 CPUs on conforming, faulted and mutated documents: exit code, stdout, error text and written file must be identical",
+              nontrivial=lambda r, o: o.startswith("same")),
         Suite("chunks", gen_chunks, oracle=oracle_chunks,
               rule="splitIntoChunks: n chunks that concatenate to the text, cut only at rune starts",
               nontrivial=lambda r, o: len(o) > 4),
